@@ -90,6 +90,41 @@ def _canon1(d):
     return simplify(IN.subst(d, fn))
 
 
+def _strip_iter(x):
+    """S.iter() / S.iter_mut() of a matrix / point / slice denotes the sequence S"""
+    while isinstance(x, tuple) and x and x[0] == 'call' and len(x) == 3 and isinstance(x[1], str) and x[1].endswith(('::iter', '::iter_mut')):
+        x = x[2]
+    return x
+
+
+def canon2(d):
+    """canon plus the pairing forms: the running element of `A.iter().zip(B.iter())` is (A[i], B[i]) and that of `X.iter_mut().enumerate()` is (i, X[i]),
+    with i the canonical position in the FIRST sequence (opt-in: rules that compare positions across sequences)"""
+    def fn(n):
+        if n[0] == 'itervar' and isinstance(n[1], tuple) and n[1] and n[1][0] == 'call':
+            src = n[1]
+            if src[1] == 'Iterator::zip' and len(src) == 4:
+                A, B = _strip_iter(src[2]), _strip_iter(src[3])
+                if not (A[0] == 'call' and str(A[1]).startswith('Iterator::')) and not (B[0] == 'call' and str(B[1]).startswith('Iterator::')):
+                    I = IDX(canon(A))
+                    return ('agg', 'tuple', ('0', ('index', canon(A), I)), ('1', ('index', canon(B), I)))
+            if src[1] == 'Iterator::enumerate' and len(src) == 3:
+                X = _strip_iter(src[2])
+                if X is not src[2]:
+                    if X[0] == 'call' and X[1] == 'Iterator::zip' and len(X) == 4:
+                        A, B = _strip_iter(X[2]), _strip_iter(X[3])
+                        I = IDX(canon(A))
+                        return ('agg', 'tuple', ('0', I), ('1', ('agg', 'tuple', ('0', ('index', canon(A), I)), ('1', ('index', canon(B), I)))))
+                    I = IDX(canon(X))
+                    return ('agg', 'tuple', ('0', I), ('1', ('index', canon(X), I)))
+                if X[0] == 'call' and X[1] == 'Iterator::zip' and len(X) == 4:
+                    A, B = _strip_iter(X[2]), _strip_iter(X[3])
+                    I = IDX(canon(A))
+                    return ('agg', 'tuple', ('0', I), ('1', ('agg', 'tuple', ('0', ('index', canon(A), I)), ('1', ('index', canon(B), I)))))
+        return None
+    return canon(simplify(IN.subst(d, fn)))
+
+
 def _chain(facts, d):
     """d = iterator expression -> list of (SRC, element DAG over the canonical running element, conds) - one entry per element a
     source item yields (flat_map over an array literal yields several) - or None when a stage is not understood"""
